@@ -420,6 +420,39 @@ Definition contract (c : carrier) (mat : option cmat) (rows cols : option cidx) 
     end
   end.
 
+(* ---- contract_multi(mats): one value per matrix of a list; entries are None, a sparse matrix (its coo triples
+   (row, col, data)) or anything without .tocoo() (a dense array: falls back to contract) *)
+Inductive mmat := MNone | MSp (tr : list (Z * Z * C)) (f : bool) | MDense (m : cmat).
+Definition mmat_flag (m : mmat) : bool := match m with MNone => false | MSp _ f => f | MDense m => cm_f m end.
+
+Definition contract_multi (c : carrier) (mats : list mmat) : res out :=
+  let fl := cplx c || existsb mmat_flag mats in      (* np.result_type(self.dtype, *[m.dtype for m in mats if m is not None]) *)
+  if Nat.eqb (length (us c)) 0 || Nat.eqb (length (vs c)) 0 then Ok (OVec (vzeros (length mats)) fl) else
+  match map_res (fun m =>
+          match m with
+          | MNone => Ok c0
+          | MSp tr _ =>      (* einsum('ij,i,ij->', U[row, :], data, V[col, :]) with U = array(self.u).T *)
+            match map_res (fun e => norm_index (ulen c) (fst (fst e))) tr with
+            | Er e => Er e
+            | Ok rs =>
+              match map_res (fun e => norm_index (vlen c) (snd (fst e))) tr with
+              | Er e => Er e
+              | Ok cs => Ok (csum (map (fun t => csum (map (fun q => cmul (cmul (vget (vd (fst q)) (Z.to_nat (fst (fst t)))) (snd t))
+                                                                         (vget (vd (snd q)) (Z.to_nat (snd (fst t)))))
+                                                          (combine (us c) (vs c))))
+                                      (combine (combine rs cs) (map snd tr))))
+              end
+            end
+          | MDense m => match contract c (Some m) None None with
+                        | Ok (OScal x _) => Ok x
+                        | Ok _ => Er ValueE
+                        | Er e => Er e
+                        end
+          end) mats with
+  | Er e => Er e
+  | Ok vals => Ok (OVec vals fl)
+  end.
+
 (* ================================================================== Part 3: programs over a store of carriers *)
 Inductive unop := UCopy | UPos | UNeg | UTr | UConj | UReal | UImag.
 Inductive binop := BAdd | BRadd | BSub | BRsub | BMatmul | BRmatmul | BDot.
@@ -440,7 +473,8 @@ Inductive op :=
 | ODiag (a : nat) (k : Z)
 | OGet (dst a : nat) (i j : idx)                         (* store[a][i, j]  (a carrier result goes to dst) *)
 | OSet (tgt : nat) (i j : idx) (v : C)                   (* store[tgt][i, j] = v *)
-| OContract (a : nat) (mat : option cmat) (rows cols : option cidx).     (* store[a].contract(mat, rows, cols) *)
+| OContract (a : nat) (mat : option cmat) (rows cols : option cidx)      (* store[a].contract(mat, rows, cols) *)
+| OContractMulti (a : nat) (mats : list mmat).                           (* store[a].contract_multi(mats) *)
 
 Definition store := list carrier.
 
@@ -526,6 +560,8 @@ Definition step (o : op) (s : store) : store * res out :=
     match get_slot s tgt with Ok c => bind_inplace s tgt (setitem c i j v) | Er e => (s, Er e) end
   | OContract a mat rows cols =>
     match get_slot s a with Ok c => (s, contract c mat rows cols) | Er e => (s, Er e) end
+  | OContractMulti a mats =>
+    match get_slot s a with Ok c => (s, contract_multi c mats) | Er e => (s, Er e) end
   end.
 
 Fixpoint run (p : list op) (s : store) : store * list (res out) :=
@@ -591,6 +627,18 @@ Fixpoint check_prog (s : store) (l : list obs) : bool :=
   match l with
   | [] => true
   | ob :: l' => let (s', b) := check_step s ob in b && check_prog s' l'
+  end.
+
+(* per-step verdicts and the model's results (printed only for failing cases, for the replay) *)
+Fixpoint check_trace (s : store) (l : list obs) : list bool :=
+  match l with
+  | [] => []
+  | ob :: l' => let (s', b) := check_step s ob in b :: check_trace s' l'
+  end.
+Fixpoint model_trace (s : store) (l : list obs) : list (res out * option carrier) :=
+  match l with
+  | [] => []
+  | ob :: l' => let (s', r) := step (o_op ob) s in (r, nth_error s' (o_slot ob)) :: model_trace s' l'
   end.
 
 (* helpers for the generated case files: real / complex vector literals *)
